@@ -120,6 +120,54 @@ def gen_length(rng):
     return rng.randint(21, 300)
 
 
+def species_group(layout, apart, ids, i):
+    """the field sets whose first-trajectory species make up the species dimension of the file that holds field set i,
+    as the property's data model has it: one species list per store (create / save with any number of files), except
+    that create_associated makes a file of its own from the first MAPPED result"""
+    if layout == 'mapped':
+        return [x for x in ids if (x in apart) == (i in apart)]
+    return list(ids)
+
+
+def file_groups(case):
+    """the field sets of a case, grouped by the file they are stored in (base file first)"""
+    ids = list(range(1, len(case['sets']) + 1))
+    if case['layout'] == 'assocn':
+        parts = [list(p) for p in case.get('parts') or []]
+    else:
+        parts = [list(case['apart'])] if case['apart'] else []
+    placed = {x for p in parts for x in p}
+    return [[x for x in ids if x not in placed]] + parts
+
+
+def cross_species(case):
+    """[(trajectory k > 0, set i, field j, species)] where the field holds a species that the first trajectory has in
+    the store's species list (species_group) but in no species-indexed field of the FILE that holds set i; and the
+    same relative to the field SET i.  Returns (across_files, across_sets)."""
+    ids = list(range(1, len(case['sets']) + 1))
+    sp_shapes = ('TS', 'TSP', 'TSM')
+
+    def first(i):
+        return {int(s) for j, f in enumerate(case['sets'][i - 1]['fields']) if f['shape'] in sp_shapes
+                for v in [case['trajs'][0]['vals'][str(i)][j]] if isinstance(v, dict) for s in v}
+    groups = file_groups(case)
+    file_of = {x: g for g in groups for x in g}
+    across_files, across_sets = [], []
+    for k in range(1, len(case['trajs'])):
+        for i in ids:
+            store = set().union(*(first(x) for x in species_group(case['layout'], case['apart'], ids, i)))
+            infile = set().union(*(first(x) for x in file_of[i]))
+            for j, f in enumerate(case['sets'][i - 1]['fields']):
+                v = case['trajs'][k]['vals'][str(i)][j]
+                if f['shape'] in sp_shapes and isinstance(v, dict):
+                    for s in sorted(int(s) for s in v):
+                        if s in store and s not in infile:
+                            across_files.append((k, i, j, s))
+                        if s in store and s not in first(i):
+                            across_sets.append((k, i, j, s))
+    return across_files, across_sets
+
+
 def gen_case(rng, uid, force=None):
     force = force or {}
     layout = force.get('layout') or rng.choice(['single', 'single', 'assoc', 'mapped', 'mapped', 'saved',
@@ -192,6 +240,11 @@ def gen_case(rng, uid, force=None):
         vals = {}
         for i in ids:
             sp_pool = pool if j == 0 else sorted(used[i])
+            if j > 0 and force.get('wide_species'):
+                # every species the first trajectory gave a place in the species dimension of the FILE(S) this field
+                # set is written to - also the ones it carried only in fields of ANOTHER field set (possibly stored in
+                # another file of the same store): a store has one species list
+                sp_pool = sorted(set().union(*(used[x] for x in species_group(layout, apart, ids, i))))
             row = []
             quiet = i in quiet_sets and quiet_from <= j < quiet_to
             for fld in sets[i - 1]['fields']:
